@@ -44,6 +44,36 @@ func TestPlan(t *testing.T) {
 		fmt.Printf("  %-60s %s sps %d B pps %d B slices %d seis %d %v\n", st.name, st.origin, len(st.sps), len(st.pps), len(st.slices), len(st.seis), st.features)
 	}
 	fmt.Println("sei-ue: seeds", len(seiUESeeds), "positions", seiUEPos, "per", seiUEPer)
+	loops := map[string]int{}
+	for _, st := range sysStreams {
+		for _, l := range st.sliceLoops {
+			for _, n := range l {
+				loops[st.codec+" "+st.origin+" "+n]++
+			}
+		}
+	}
+	for _, st := range sysStreams {
+		set := map[string]bool{}
+		for _, l := range append(append([][]string{}, st.sliceLoops...), st.loopSliceLoops...) {
+			for _, n := range l {
+				set[n] = true
+			}
+		}
+		var names []string
+		for n := range set {
+			names = append(names, n)
+		}
+		sort.Strings(names)
+		fmt.Printf("  loops of %-50s %d+%d slices: %v\n", st.name, len(st.slices), len(st.loopSlices), names)
+	}
+	var lk []string
+	for k := range loops {
+		lk = append(lk, k)
+	}
+	sort.Strings(lk)
+	for _, k := range lk {
+		fmt.Printf("  slices with %-60s %d\n", k, loops[k])
+	}
 	for k, v := range s.byKind {
 		fmt.Printf("  %-12s %d\n", k, len(v))
 	}
